@@ -611,26 +611,61 @@ def run(rep, tier, rng):
     vplib.finish_proof_verdict(rep, pfail)
 
 
+def segments(v):
+    """marker -> (start, end) of each route's segment in a PROJECTED result (the format of Redeem/Run.v run_c12),
+    parsed sequentially: node indices inside a segment may equal a marker once a program has more than 100 nodes"""
+    seg = {}
+    pos = 0
+    try:
+        while pos < len(v):
+            m = v[pos]
+            start = pos
+            pos += 1
+            if m == 105:
+                pos += 1 + v[pos]
+            elif m in (100, 101, 102, 103, 104):
+                if m == 104:
+                    if v[pos] == 8 and (pos + 1 >= len(v) or v[pos + 1] == 105):
+                        pos += 1
+                        seg[m] = (start, pos)
+                        continue
+                    pos += 1 + v[pos]
+                k = v[pos]
+                pos += 1
+                if k == 1:
+                    pos += 1
+                elif k == 0:
+                    pos += 2 if m == 104 else 4
+                    cnt = v[pos]
+                    pos += 1
+                    for _ in range(cnt):
+                        pos += 1 if m in (101, 103) else 2 + v[pos + 1]
+            else:
+                return None
+            if pos > len(v):
+                return None
+            seg[m] = (start, pos)
+    except (IndexError, TypeError):
+        return None
+    return seg
+
+
+def splice_routes(model_v, impl_v, first, after):
+    """replace the segments [first, after) of the model's result by the implementation's"""
+    sm, si = segments(model_v), segments(impl_v)
+    if not sm or not si or first not in sm or after not in sm or first not in si or after not in si:
+        return model_v
+    return model_v[:sm[first][0]] + impl_v[si[first][0]:si[after][0]] + model_v[sm[after][0]:]
+
+
 def splice_104(model_v, impl_v):
     """replace the route-104 outcome of the model by the implementation's (sharing verdict)"""
-    try:
-        i = model_v.index(104)
-        j = len(model_v) - 1 - model_v[::-1].index(105)
-        i2 = impl_v.index(104)
-        j2 = len(impl_v) - 1 - impl_v[::-1].index(105)
-        return model_v[:i] + impl_v[i2:j2] + model_v[j:]
-    except ValueError:
-        return model_v
+    return splice_routes(model_v, impl_v, 104, 105)
 
 
 def splice_hr(model_v, impl_v):
     """routes 102/103 refused by the parser of the text format (shared witness node): not modelled"""
-    try:
-        i, j = model_v.index(102), model_v.index(104)
-        i2, j2 = impl_v.index(102), impl_v.index(104)
-        return model_v[:i] + impl_v[i2:j2] + model_v[j:]
-    except ValueError:
-        return model_v
+    return splice_routes(model_v, impl_v, 102, 104)
 
 
 def replay(obj):
